@@ -204,6 +204,9 @@ var idBases = []uint64{0, 0, 0, 1, 100, 126, 127, 128, 250, 255, 256, 65534, 655
 func idValues(n int, scheme int, r *hx.Rng) []uint64 {
 	vals := make([]uint64, n)
 	base := idBases[r.Intn(len(idBases))]
+	if scheme == valEdge && n > 150 {
+		scheme = valSparse // not enough room around the boundaries
+	}
 	switch scheme {
 	case valContig:
 		for i := range vals {
